@@ -545,7 +545,7 @@ class n0list(n0list_):
                                 n0list(other[other_i]),
                                 f"{self_name}[{self_i}]",
                                 f"{other_name}[{other_i}]",
-                                f"{prefix}[{other_i}]" + f"<>[{other_i}]" if self_i != other_i else "",
+                                f"{prefix}[{self_i}]" + (f"<>[{other_i}]" if self_i != other_i else ""),
                                 composite_key=composite_key, compare_only=compare_only,
                                 exclude_xpaths=exclude_xpaths, transform=transform,
                             )
